@@ -174,4 +174,21 @@ def fxAppendColumn (g : SGroup) (col : List Val) (name : String) (dt : Option Co
           let half : SGroup := { g with dataNew := some (sAppendCell s.rows (ws.map enc)) }
           ({ half with dataNew := none }, some .typeError)
 
+/-- `write_rows`, the two stages: the rows are converted by NumPy when h5py builds the array to write, then the
+    string members are checked; nothing is written before both have passed -/
+def fxWriteRows (s : SFrame) (rows : List (List Val)) (idx : List Int) : SFrame × Option Err :=
+  match rows with
+  | [] => (s, some .indexError)
+  | _ =>
+    if rows.length ≠ idx.length then (s, some .indexError) else
+    if maxInt idx > (s.rows.length : Int) - 1 then (s, some .outOfBounds) else
+    match npRows s.types rows with
+    | .error e => (s, some e)
+    | .ok rs =>
+      if h5RowsOk s.types rs then
+        match selectList s.rows.length idx .typeError with
+        | .error e => (s, some e)
+        | .ok ks => ({ s with rows := sSetMany s.rows ks (rs.map encRow) }, none)
+      else (s, some .typeError)
+
 end Nix.Frame
